@@ -13,9 +13,9 @@ import (
 	"sync/atomic"
 	"time"
 
+	"github.com/orbs-network/govnr"
 	leanhelix "github.com/orbs-network/lean-helix-go"
 	Electiontrigger "github.com/orbs-network/lean-helix-go/services/electiontrigger"
-	"github.com/orbs-network/govnr"
 	"github.com/orbs-network/lean-helix-go/services/interfaces"
 	"github.com/orbs-network/lean-helix-go/services/messagesfactory"
 	"github.com/orbs-network/lean-helix-go/services/storage"
@@ -110,9 +110,9 @@ func (k *witnessKM) VerifyConsensusMessage(h primitives.BlockHeight, content []b
 	return k.KM.VerifyConsensusMessage(h, content, sender)
 }
 
-func (l *rtLogger) Debug(format string, args ...interface{}) { l.line(format) }
-func (l *rtLogger) Info(format string, args ...interface{})  { l.line(format) }
-func (l *rtLogger) Error(format string, args ...interface{}) { l.line(format) }
+func (l *rtLogger) Debug(format string, args ...interface{})           { l.line(format) }
+func (l *rtLogger) Info(format string, args ...interface{})            { l.line(format) }
+func (l *rtLogger) Error(format string, args ...interface{})           { l.line(format) }
 func (l *rtLogger) ConsensusTrace(format string, fields ...*log.Field) {}
 
 // ---------------------------------------------------------------- election schedulers
@@ -171,12 +171,12 @@ func (e *ManualES) Fire(ctx context.Context, h, v uint64) bool {
 // that "a trigger was acted upon" is observable (C19, system level).
 type DecoES struct {
 	*Electiontrigger.TimerBasedElectionTrigger
-	node string
-	net  *Net
-	mu   sync.Mutex
-	h, v uint64
-	arm  time.Time
-	live bool
+	node  string
+	net   *Net
+	mu    sync.Mutex
+	h, v  uint64
+	arm   time.Time
+	live  bool
 	acted bool
 }
 
@@ -228,34 +228,34 @@ type commitRec struct {
 }
 
 type RNode struct {
-	Id     string
-	net    *Net
-	ML     *leanhelix.MainLoop
-	BU     *spi.BlockUtils
-	Mem    *spi.Membership
-	Store  *spi.RecStorage
-	Manual *ManualES
-	Deco   *DecoES
-	Lg     *rtLogger
-	ctx    context.Context
-	Cancel context.CancelFunc
-	Waiter govnr.ShutdownWaiter
-	down   int32 // set when WaitUntilShutdown returned
-	downSeq uint64
-	FailCommit func(h uint64) bool
+	Id          string
+	net         *Net
+	ML          *leanhelix.MainLoop
+	BU          *spi.BlockUtils
+	Mem         *spi.Membership
+	Store       *spi.RecStorage
+	Manual      *ManualES
+	Deco        *DecoES
+	Lg          *rtLogger
+	ctx         context.Context
+	Cancel      context.CancelFunc
+	Waiter      govnr.ShutdownWaiter
+	down        int32 // set when WaitUntilShutdown returned
+	downSeq     uint64
+	FailCommit  func(h uint64) bool
 	BlockCommit func(ctx context.Context, h uint64) // optional: runs inside the commit callback
-	ping   *messagesfactory.MessageFactory
-	pingNo uint64
+	ping        *messagesfactory.MessageFactory
+	pingNo      uint64
 }
 
 type Opts struct {
-	N         int
-	Weights   []uint64
-	TimerBase time.Duration // 0: manual election scheduler
-	Drop, Dup int
+	N          int
+	Weights    []uint64
+	TimerBase  time.Duration // 0: manual election scheduler
+	Drop, Dup  int
 	MaxDelayUs int
-	LogDelays map[string]int
-	NoRouter  bool // messages are recorded only (single-node scenarios)
+	LogDelays  map[string]int
+	NoRouter   bool // messages are recorded only (single-node scenarios)
 }
 
 type Net struct {
@@ -283,7 +283,7 @@ func (n *Net) violate(prop, rule, format string, a ...interface{}) {
 		n.viol = append(n.viol, Violation{prop, rule, fmt.Sprintf(format, a...)})
 	}
 }
-func (n *Net) count(k string) { n.mu.Lock(); n.stats[k]++; n.mu.Unlock() }
+func (n *Net) count(k string)      { n.mu.Lock(); n.stats[k]++; n.mu.Unlock() }
 func (n *Net) add(k string, d int) { n.mu.Lock(); n.stats[k] += d; n.mu.Unlock() }
 
 func NewNet(seed int64, o *Opts) *Net {
